@@ -106,7 +106,7 @@ def StepAgree (cost B : Nat) (Next : St → MState → Prop)
   | .ok (c, sr), .ok (c', sm) => c = c' ∧ Next sr sm
   | .error _, .error _ => True
   | .error e, .ok _ => BadR e
-  | .ok (c, _), .error e' => BadM e' ∨ (e' = .err .CostExceeded ∧ cost + c > B)
+  | .ok (c, sr), .error e' => BadM e' ∨ (e' = .err .CostExceeded ∧ cost + c > B ∧ sr.guards = [])
 
 /-! ### primitives -/
 
@@ -617,16 +617,16 @@ def StepAgree' (cost B : Nat) (rr : Except RefErr (Nat × St)) (mr : M (Nat × M
   | .ok (c, sr), .error e' => BadM e' ∨ (cost + c > B ∧ sr.guards = [])
 
 theorem StepAgree.to' {cost B : Nat} {K : List Frame} {rr : Except RefErr (Nat × St)} {mr : M (Nat × MState)}
-    (h : StepAgree cost B (Next K) rr mr) (hg : ∀ c sr, rr = .ok (c, sr) → sr.guards = []) : StepAgree' cost B rr mr := by
+    (h : StepAgree cost B (Next K) rr mr) : StepAgree' cost B rr mr := by
   cases rr with
   | error e => cases mr <;> exact h
   | ok r =>
     obtain ⟨c, sr⟩ := r
     cases mr with
     | error e' =>
-      rcases h with h | ⟨_, h⟩
+      rcases h with h | ⟨_, h, hg⟩
       · exact Or.inl h
-      · exact Or.inr ⟨h, hg c sr rfl⟩
+      · exact Or.inr ⟨h, hg⟩
     | ok r' => exact ⟨h.1, Rel.of_next h.2⟩
 
 theorem after_agree {B fr fm cost : Nat} {rr : Except RefErr (Nat × St)} {mr : M (Nat × MState)} {ro : Res}
@@ -714,5 +714,136 @@ theorem consOp_cases {s : MState} {v1 v2 : Val} {rest : List Val} (hv : s.valSta
     · left; rw [h2]; exact ⟨_, rfl, Or.inr (Or.inl rfl)⟩
     · right; rw [h2]; exact ⟨_, rfl, rfl, rfl, rfl, rfl⟩
   · left; rw [h]; exact ⟨_, rfl, Or.inl hl⟩
+
+/-! ### the simulation -/
+
+/-- the `Apply` position: what remains to be shown for the simulation (the three branches of
+`apply_op`: `a`, opcode 36, an ordinary operator through the dispatch tables) -/
+def ApplyCase (B : Nat) : Prop :=
+  ∀ (fm fr : Nat) (f : Frame) (K : List Frame) (sr : St) (sm : MState) (cost : Nat) (ro : Res)
+    (mo : M (Nat × MState)),
+    (∀ (fr' : Nat) (sr' : St) (sm' : MState) (cost' : Nat) (ro : Res) (mo : M (Nat × MState)),
+      cost' ≤ B → Rel sr' sm' → Ref.runLoop coreAd (some B) fr' sr' cost' = some ro →
+      Interp.runLoop {} dial B fm sm' cost' = some mo → LoopOut ro mo) →
+    cost ≤ B → ArgsRel f K sr sm → f.pending = [] →
+    Ref.runLoop coreAd (some B) fr sr cost = some ro →
+    Interp.runLoop {} dial B (fm + 1) sm cost = some mo → LoopOut ro mo
+
+theorem rloop_zero (B : Nat) (sr : St) (cost : Nat) : Ref.runLoop coreAd (some B) 0 sr cost = none := rfl
+
+theorem sim (B : Nat) (hA : ApplyCase B) : ∀ (fm fr : Nat) (sr : St) (sm : MState) (cost : Nat) (ro : Res)
+    (mo : M (Nat × MState)),
+    cost ≤ B → Rel sr sm → Ref.runLoop coreAd (some B) fr sr cost = some ro →
+    Interp.runLoop {} dial B fm sm cost = some mo → LoopOut ro mo := by
+  intro fm
+  induction fm with
+  | zero => intro fr sr sm cost ro mo _ _ _ hm; simp [runLoop_zero] at hm
+  | succ fm ih =>
+    intro fr sr sm cost ro mo hc hrel hr hm
+    rcases hrel with ⟨K, v, h⟩ | ⟨f, K, h⟩
+    · -- a value has been produced
+      cases K with
+      | nil =>
+        -- both machines are done
+        cases fr with
+        | zero => simp [rloop_zero] at hr
+        | succ fr =>
+          have hro : sr.opStack = [] := h.ro
+          have hmo : sm.opStack = [] := h.mo
+          simp only [Ref.runLoop, hro, h.rv] at hr
+          rw [runLoop_succ] at hm
+          unfold loopBody at hm
+          have he : effMax B sm = B := by simp [effMax, h.ms]
+          rw [he, if_neg (by omega), hmo] at hm
+          simp only [Option.some.injEq] at hr hm
+          subst hr; subst hm
+          exact ⟨rfl, v, _, h.mv, rfl⟩
+      | cons f K' =>
+        -- `Cons` / `cons`
+        cases fr with
+        | zero => simp [rloop_zero] at hr
+        | succ fr =>
+          have hfok : f.Ok := h.ok f (by simp)
+          have hKok : ∀ g ∈ K', g.Ok := fun g hg => h.ok g (by simp [hg])
+          rw [mloop_step B fm cost h.ms hc (show sm.opStack = Operation.Cons :: argsOpsM f (opsM K') from h.mo)] at hm
+          have hrr : Ref.runLoop coreAd (some B) (fr + 1) sr cost = rAfter B fr cost
+              (.ok (0, { sr with opStack := argsOpsR f (opsR K'),
+                                 valueStack := .pair v.erase f.acc.erase :: argsValsR f (valsR K'),
+                                 depth := sr.depth - 1 })) := by
+            have hro : sr.opStack = .cons :: argsOpsR f (opsR K') := h.ro
+            have hrv : sr.valueStack = v.erase :: f.acc.erase :: argsValsR f (valsR K') := h.rv
+            simp only [Ref.runLoop, hro, Ref.consOp, hrv, rAfter, effectiveMax, h.rg]
+          rw [hrr] at hr
+          refine after_agree (fun fr' sr' sm' cost' ro mo => ih fr' sr' sm' cost' ro mo) ?_ hr hm
+          simp only [stepOp]
+          rcases consOp_cases (s := { sm with opStack := argsOpsM f (opsM K') }) (v1 := v) (v2 := f.acc)
+              (rest := argsValsM f (valsM K')) h.mv with ⟨e, he, hb⟩ | ⟨s', hs', sh⟩
+          · rw [he]; exact Or.inl hb
+          · rw [hs']
+            refine ⟨rfl, Or.inr ⟨{ f with acc := .pair v f.acc }, K', ⟨rfl, rfl, h.rg, sh.o, sh.v, ?_, ?_, ?_, hKok⟩⟩⟩
+            · rw [sh.e]; exact h.me
+            · rw [sh.s]; exact h.ms
+            · obtain ⟨h1, h2, h3, h4, h5, h6⟩ := hfok
+              exact ⟨h1, h2, h3, by simp [Val.wf, h.wf, h4], h5, h6⟩
+    · -- an argument list has been extended
+      cases hpend : f.pending with
+      | nil => exact hA fm fr f K sr sm cost ro mo (fun fr' sr' sm' cost' ro mo => ih fr' sr' sm' cost' ro mo) hc h hpend hr hm
+      | cons a rest =>
+        -- `SwapEval` / `swap; eval`
+        let f' : Frame := { f with pending := rest }
+        have hfok : f'.Ok := by
+          obtain ⟨h1, h2, h3, h4, h5, h6⟩ := h.fok
+          exact ⟨fun x hx => h1 x (by rw [hpend]; exact List.mem_cons_of_mem _ hx), h2, h3, h4, h5, h6⟩
+        have hawf : a.wf = true := h.fok.1 a (by rw [hpend]; simp)
+        have hKok : ∀ g ∈ f' :: K, g.Ok := by
+          intro g hg
+          simp only [List.mem_cons] at hg
+          rcases hg with rfl | hg
+          · exact hfok
+          · exact h.ok g hg
+        have hmo : sm.opStack = Operation.SwapEval :: argsOpsM f' (opsM K) := by
+          rw [h.mo]; simp [argsOpsM, hpend, f', List.replicate_succ]
+        have hmv : sm.valStack = f.acc :: a :: (rest ++ f.operator :: valsM K) := by
+          rw [h.mv]; simp [argsValsM, hpend]
+        rw [mloop_step B fm cost h.ms hc hmo] at hm
+        have hro : sr.opStack = .swap :: .eval :: opsR (f' :: K) := by
+          rw [h.ro]; simp [argsOpsR, opsR, hpend, f', sec]
+        have hrv : sr.valueStack = f.acc.erase :: .pair a.erase f.env.erase :: (argsValsR f' (valsR K)) := by
+          rw [h.rv]; simp [argsValsR, hpend, f']
+        cases fr with
+        | zero => simp [rloop_zero] at hr
+        | succ fr =>
+          cases fr with
+          | zero =>
+            simp only [Ref.runLoop, hro, swapOp, hrv, effectiveMax, h.rg, Nat.add_zero] at hr
+            rw [if_neg (by omega)] at hr
+            simp at hr
+          | succ fr =>
+            have hrr : Ref.runLoop coreAd (some B) (fr + 1 + 1) sr cost = rAfter B fr cost
+                (evalOp coreAd { sr with opStack := opsR (f' :: K),
+                                         valueStack := .pair a.erase f.env.erase :: valsR (f' :: K) }) := by
+              simp only [Ref.runLoop, hro, swapOp, hrv, effectiveMax, h.rg, Nat.add_zero, rAfter, valsR]
+              rw [if_neg (by omega)]
+              cases evalOp coreAd _ with
+              | error e => rfl
+              | ok r => rfl
+            rw [hrr] at hr
+            refine after_agree (fun fr' sr' sm' cost' ro mo => ih fr' sr' sm' cost' ro mo) ?_ hr hm
+            simp only [stepOp]
+            rcases swapEval_cases (s := { sm with opStack := argsOpsM f' (opsM K) }) (acc := f.acc) (a := a)
+                (env := f.env) (rest := rest ++ f.operator :: valsM K) (E := envsM K) hmv h.me with
+              ⟨e, he, hb⟩ | ⟨s2, hs2, sh⟩
+            · rw [he]
+              cases evalOp coreAd _ with
+              | error e' => trivial
+              | ok r => exact Or.inl hb
+            · rw [hs2]
+              refine (eval_agree (f' :: K) hKok a f.env hawf h.fok.2.1
+                ({ sr with opStack := opsR (f' :: K), valueStack := .pair a.erase f.env.erase :: valsR (f' :: K) })
+                s2 rfl rfl h.rg ?_ ?_ ?_ ?_ cost B).to'
+              · rw [sh.o]; rfl
+              · rw [sh.v]; rfl
+              · rw [sh.e]; exact h.me
+              · rw [sh.s]; exact h.ms
 
 end Clvm.Ref
